@@ -82,6 +82,8 @@ pub struct PopStats {
     pub handles_compared_for_reissue: u64,
     pub growth_steps: u64,
     pub phases: u64,
+    pub event_log_entries_compared: u64,
+    pub event_size_hints_checked: u64,
     pub zst_worlds: u64,
     pub zst_sweeps: u64,
     pub zst_values_balanced: u64,
@@ -100,6 +102,10 @@ struct St {
     round: Vec<u8>,
     others: Vec<Entity<Oth>>,
     n_alive: usize,
+    /// indices into `handles` created / destroyed since the last clear (events build)
+    ev_created: Vec<u32>,
+    ev_destroyed: Vec<u32>,
+    ev_others_pending: bool,
 }
 
 fn sweep(s: &mut St, at: &str, st: &mut PopStats) -> Result<(), Vio> {
@@ -231,13 +237,84 @@ fn sweep(s: &mut St, at: &str, st: &mut PopStats) -> Result<(), Vio> {
     Ok(())
 }
 
+/// Events build: both logs of the big archetype and both world-level iterators against what happened since the last clear -
+/// as multisets, with the exact `size_hint` before the first and after every 4099th `next()`, and `count()`.
+#[cfg(feature = "events")]
+fn check_events(s: &mut St, at: &str, st: &mut PopStats) -> Result<(), Vio> {
+    let r = catch_unwind(AssertUnwindSafe(|| -> Result<(u64, u64), Vio> {
+        let mut hints = 0u64;
+        let mut compared = 0u64;
+        for which in 0..2 {
+            let name = if which == 0 { "created" } else { "destroyed" };
+            let mut want: Vec<(u32, u32)> = (if which == 0 { &s.ev_created } else { &s.ev_destroyed }).iter().map(|i| s.handles[*i as usize].into_any().raw()).collect();
+            let mut got_arch: Vec<(u32, u32)> = if which == 0 { s.w.pop.iter_created().map(|e| e.into_any().raw()).collect() } else { s.w.pop.iter_destroyed().map(|e| e.into_any().raw()).collect() };
+            want.sort_unstable();
+            got_arch.sort_unstable();
+            if got_arch != want {
+                vio!("C17", format!("{}-log-differs", name), "{}: the archetype's {} log has {} entries, {} expected (first difference at sorted position {:?})", at, name, got_arch.len(), want.len(), got_arch.iter().zip(want.iter()).position(|(a, b)| a != b));
+            }
+            compared += want.len() as u64;
+            // world level: union with the small archetype's log (3 creations pending until the first clear)
+            let extra: Vec<(u32, u32)> = if which == 0 && s.ev_others_pending { s.others.iter().map(|e| e.into_any().raw()).collect() } else { Vec::new() };
+            let total = want.len() + extra.len();
+            let mut got_world: Vec<(u32, u32)> = Vec::with_capacity(total);
+            let mut it: Box<dyn Iterator<Item = &EntityAny>> = if which == 0 { Box::new(s.w.iter_created()) } else { Box::new(s.w.iter_destroyed()) };
+            let mut k = 0usize;
+            loop {
+                if k % 4099 == 0 || total - k.min(total) < 3 {
+                    let h = it.size_hint();
+                    hints += 1;
+                    if h != (total - k.min(total), Some(total - k.min(total))) || k > total {
+                        vio!("C17", "size-hint", "{}: world-level {} iterator after {} of {} items reports size_hint {:?}", at, name, k, total, h);
+                    }
+                }
+                match it.next() {
+                    Some(e) => { got_world.push(e.raw()); k += 1; }
+                    None => break,
+                }
+            }
+            drop(it);
+            let cnt = if which == 0 { s.w.iter_created().count() } else { s.w.iter_destroyed().count() };
+            got_world.sort_unstable();
+            want.extend(extra);
+            want.sort_unstable();
+            if got_world != want || cnt != want.len() {
+                vio!("C17", format!("world-{}-not-union", name), "{}: the world-level {} iterator yields {} items (count() {}), the union of the archetypes has {}", at, name, got_world.len(), cnt, want.len());
+            }
+            compared += want.len() as u64;
+        }
+        Ok((compared, hints))
+    }));
+    match r {
+        Ok(Ok((c, h))) => { st.event_log_entries_compared += c; st.event_size_hints_checked += h; Ok(()) }
+        Ok(Err(v)) => Err(v),
+        Err(p) => vio!("C17", "event-iterator-panicked", "{}: an event iterator panicked: {}", at, panic_msg(&p)),
+    }
+}
+#[cfg(not(feature = "events"))]
+fn check_events(_s: &mut St, _at: &str, _st: &mut PopStats) -> Result<(), Vio> {
+    Ok(())
+}
+
+#[cfg(feature = "events")]
+fn clear_events(s: &mut St, world_level: bool) {
+    if world_level { s.w.clear_events(); s.ev_others_pending = false; } else { s.w.pop.clear_events(); }
+    s.ev_created.clear();
+    s.ev_destroyed.clear();
+}
+#[cfg(not(feature = "events"))]
+fn clear_events(s: &mut St, _world_level: bool) {
+    s.ev_created.clear();
+    s.ev_destroyed.clear();
+}
+
 fn one(n: usize, cap0: usize, st: &mut PopStats) -> Result<(), Vio> {
     st.worlds_built += 1;
     let w = match catch_unwind(|| PW::with_capacity(PWCapacity { oth: 0, pop: cap0, zst: 0 })) {
         Ok(w) => w,
         Err(p) => vio!("C12", "with-capacity-panicked", "with_capacity({}) panicked: {}", cap0, panic_msg(&p)),
     };
-    let mut s = St { w, handles: Vec::with_capacity(n * 2), alive: Vec::with_capacity(n * 2), round: Vec::with_capacity(n * 2), others: Vec::new(), n_alive: 0 };
+    let mut s = St { w, handles: Vec::with_capacity(n * 2), alive: Vec::with_capacity(n * 2), round: Vec::with_capacity(n * 2), others: Vec::new(), n_alive: 0, ev_created: Vec::new(), ev_destroyed: Vec::new(), ev_others_pending: true };
     for k in 0..3u32 {
         s.others.push(s.w.create::<Oth>((Uid(0x8000_0000 + k), Mrk(k as u8))));
     }
@@ -267,6 +344,7 @@ fn one(n: usize, cap0: usize, st: &mut PopStats) -> Result<(), Vio> {
             if cap < i + 1 || cap > (1 << 24) {
                 vio!("C12", "capacity-arithmetic", "capacity {} at len {}", cap, i + 1);
             }
+            s.ev_created.push(s.handles.len() as u32);
             s.handles.push(e);
             s.alive.push(true);
             s.round.push(0);
@@ -281,6 +359,7 @@ fn one(n: usize, cap0: usize, st: &mut PopStats) -> Result<(), Vio> {
     st.entities_created += n as u64;
     check_distinct(&s, st, "after the fill")?;
     sweep(&mut s, "after the fill", st)?;
+    check_events(&mut s, "after the fill", st)?;
 
     // phase 2: overwrite every third entity through a query, every other third through the slice
     let r = catch_unwind(AssertUnwindSafe(|| {
@@ -326,6 +405,7 @@ fn one(n: usize, cap0: usize, st: &mut PopStats) -> Result<(), Vio> {
                 _ => {}
             }
             s.alive[i] = false;
+            s.ev_destroyed.push(i as u32);
             s.n_alive -= 1;
             if s.w.pop.len() != s.n_alive {
                 vio!("C12", "len-after-destroy", "len {} after destroying uid {}, expected {}", s.w.pop.len(), uid, s.n_alive);
@@ -340,6 +420,11 @@ fn one(n: usize, cap0: usize, st: &mut PopStats) -> Result<(), Vio> {
     }
     let cap_after_fill = s.w.pop.capacity();
     sweep(&mut s, "after the scattered destroys", st)?;
+    check_events(&mut s, "after the scattered destroys (nothing cleared yet)", st)?;
+    // clear at archetype level: the entities stay, the logs are empty, the small archetype's log is untouched
+    clear_events(&mut s, false);
+    check_events(&mut s, "after the archetype-level clear", st)?;
+    sweep(&mut s, "after the archetype-level clear", st)?;
 
     // phase 4: ecs_iter_destroy! - every entity with uid % 3 == 0 goes (that is i % 3 == 2), the rest stays
     let before = s.n_alive;
@@ -360,6 +445,7 @@ fn one(n: usize, cap0: usize, st: &mut PopStats) -> Result<(), Vio> {
     for i in 0..n {
         if s.alive[i] && (i as u32 + 1) % 3 == 0 {
             s.alive[i] = false;
+            s.ev_destroyed.push(i as u32);
             s.n_alive -= 1;
         }
     }
@@ -368,6 +454,9 @@ fn one(n: usize, cap0: usize, st: &mut PopStats) -> Result<(), Vio> {
         vio!("C07", "wrong-number-destroyed", "ecs_iter_destroy! flagged {} entities, len went from {} to {}, expected {}", flagged, before, s.w.pop.len(), s.n_alive);
     }
     sweep(&mut s, "after ecs_iter_destroy!", st)?;
+    check_events(&mut s, "after ecs_iter_destroy! (only destroyed events pending)", st)?;
+    clear_events(&mut s, true);
+    check_events(&mut s, "after the world-level clear", st)?;
 
     // phase 5: refill to the old population without growth: every freed position is reusable, no handle comes back
     let missing = n - s.n_alive;
@@ -379,6 +468,7 @@ fn one(n: usize, cap0: usize, st: &mut PopStats) -> Result<(), Vio> {
                 Ok(e) => e,
                 Err(_) => vio!("C12", "freed-position-not-reusable", "refill {} of {}: create_within_capacity refuses with len {} capacity {}", k + 1, missing, s.w.pop.len(), s.w.pop.capacity()),
             };
+            s.ev_created.push(s.handles.len() as u32);
             s.handles.push(e);
             s.alive.push(true);
             s.round.push(0);
@@ -397,6 +487,7 @@ fn one(n: usize, cap0: usize, st: &mut PopStats) -> Result<(), Vio> {
     }
     check_distinct(&s, st, "after the refill")?;
     sweep(&mut s, "after the refill", st)?;
+    check_events(&mut s, "after the refill", st)?;
 
     // phase 6: clone - the same answers for the whole population, then independence
     let c = match catch_unwind(AssertUnwindSafe(|| s.w.clone())) {
@@ -408,6 +499,7 @@ fn one(n: usize, cap0: usize, st: &mut PopStats) -> Result<(), Vio> {
     }
     let orig = std::mem::replace(&mut s.w, c);
     sweep(&mut s, "in the clone", st).map_err(|mut v| { v.prop = format!("C13,{}", v.prop); v })?;
+    check_events(&mut s, "in the clone (same pending events)", st).map_err(|mut v| { v.prop = format!("C13,{}", v.prop); v })?;
     // destroy everything in the clone; the original must not notice
     let r = catch_unwind(AssertUnwindSafe(|| {
         let mut k = 0usize;
@@ -421,6 +513,7 @@ fn one(n: usize, cap0: usize, st: &mut PopStats) -> Result<(), Vio> {
     }
     st.entities_destroyed += n as u64;
     s.w = orig;
+    check_events(&mut s, "in the original after emptying the clone", st).map_err(|mut v| { v.prop = format!("C13,{}", v.prop); v })?;
     sweep(&mut s, "in the original after emptying the clone", st).map_err(|mut v| { v.prop = format!("C13,{}", v.prop); v })?;
     Ok(())
 }
